@@ -329,7 +329,8 @@ def define_checks(ctx, rng, do_model=False):
         srows = [''.join('*' if v == DontCare else ('1' if v else '0') for v in r) for r in rows]
         ctx.case(json.dumps(['define', n, srows, over]), over)
         try:
-            t = TruthTableModel([list(r) for r in rows]).define(dict(defn))
+            tm = TruthTableModel([list(r) for r in rows])
+            t = tm.define(dict(defn))
             got1 = [list(r) for r in t.get_truth_table()]
             tcols = [[rows[o][i] for o in range(m)] for i in range(N)]
             pm = PyFunctionModel(lambda x: list(tcols[input_to_canonical_index(x)]), input_size=n, output_size=m)
@@ -348,6 +349,23 @@ def define_checks(ctx, rng, do_model=False):
             ctx.violation(key, 'completed model disagrees with the model where it was defined, or with the definition elsewhere',
                           input={'n': n, 'rows': srows, 'defn': [[list(map(int, x)), o, bool(v)] for ((x, o), v) in defn.items()],
                                  'want': want, 'tt': got1, 'py': got2})
+        if not do_model:
+            # the same model object completed a second time, by the complementary definition
+            defn2 = {kk: not v for kk, v in defn.items()}
+            want2 = [[rows[o][i] if rows[o][i] != DontCare else defn2[(xs[i], o)] for i in range(N)] for o in range(m)]
+            try:
+                got3 = [list(r) for r in tm.define(dict(defn2)).get_truth_table()]
+                got4 = [list(r) for r in pm.define(dict(defn2)).get_truth_table()]
+            except Exception as e:  # noqa: BLE001
+                ctx.violation('define.raises', f'second define on the same model raised {err_name(e)}', input={'n': n, 'rows': srows})
+                continue
+            if got3 != want2 or got4 != want2:
+                ctx.violation('define.second_completion', 'the same model completed a second time: the result disagrees with the model '
+                              'where it was defined, or with the second definition elsewhere',
+                              input={'n': n, 'rows': srows, 'defn1': [[list(map(int, x)), o, bool(v)] for ((x, o), v) in defn.items()],
+                                     'want': want2, 'tt': got3, 'py': got4})
+            else:
+                ctx.count('define:second_completion_ok')
     if do_model and reqs:
         model = ctx.driver.ask_many(reqs)
         for r, a, b in zip(reqs, expect, model):
